@@ -2201,6 +2201,20 @@ def _ext_sum(interp, it, start=0):
     return acc
 
 
+def _ext_all(interp, it):
+    for x in interp.iterate(it):
+        if not interp.truth(x):
+            return False
+    return True
+
+
+def _ext_any(interp, it):
+    for x in interp.iterate(it):
+        if interp.truth(x):
+            return True
+    return False
+
+
 def _ext_print(interp, *a, **k):
     interp.ctx.ghost_log.append(("print", a))
 
@@ -2376,6 +2390,8 @@ DEFAULT_EXTERNALS = {
     min: _minmax(False),
     abs: _ext_abs,
     sum: _ext_sum,
+    all: _ext_all,
+    any: _ext_any,
     print: _ext_print,
     pow: _ext_pow,
     range: _ext_range,
